@@ -48,6 +48,7 @@ func main() {
 	seed := flag.Int64("seed", 0, "seed (recorded)")
 	tags := flag.String("tags", "", "build tags")
 	tier := flag.Int("tier", 0, "0 quick, 1 thorough (visible to harnesses as rt.Tier())")
+	cexSamples := flag.Int("cexsamples", 0, "extra solver models per failing assertion, spread over input ranges")
 	cpuprof := flag.String("cpuprofile", "", "write cpu profile of the exploration phase")
 	flag.Parse()
 
@@ -120,7 +121,7 @@ func main() {
 		}
 		t1 := time.Now()
 		c := interp.Config{MaxObjBytes: 1 << 22, MaxSteps: *maxSteps, MaxPaths: *maxPaths, MaxDepth: *maxDepth,
-			SolverKind: *solver, SolverTO: *to, Workers: *workers, Seed: *seed, Verbose: *verbose, Tier: *tier}
+			SolverKind: *solver, SolverTO: *to, Workers: *workers, Seed: *seed, Verbose: *verbose, Tier: *tier, CexSamples: *cexSamples}
 		if *budgetS > 0 {
 			c.Deadline = time.Now().Add(time.Duration(*budgetS) * time.Second)
 		}
